@@ -613,7 +613,7 @@ func (r *ruleState) txStep(tr *TxRec, pre, post *tables.Tables) {
 				legal = true
 			}
 			if !legal {
-				s.violate("T9.lease_broken", P("C07"), "task", "task taken from its holder before the lease ended", fmt.Sprintf("clock %d, lease end %d, timeout %d: %s -> %s (by %s)", clock, end, t.Timeout, t, u, tr.Name))
+				s.violate("T9.lease_broken", P("C07", "C02"), "task", "task taken from its holder before the lease ended", fmt.Sprintf("clock %d, lease end %d, timeout %d: %s -> %s (by %s)", clock, end, t.Timeout, t, u, tr.Name))
 			}
 		}
 		// claims
@@ -655,6 +655,9 @@ func (r *ruleState) txStep(tr *TxRec, pre, post *tables.Tables) {
 				s.violate("T11.enqueued_without_handoff", P("C08"), "task", "marked enqueued without a successful hand-off", fmt.Sprintf("%s -> %s by %s", t, u, tr.Tag))
 			}
 			s.Probes["task_enqueued"]++
+		}
+		if t.State == 1 && (u.State == 1 || u.State == 2) && tr.Name == "EnqueueTasks" && mesgType(t) == "notify" && (u.State == 2 || u.Attempt != t.Attempt) && r.attempted(tr.Tag, tid, t.Counter) {
+			s.violate("T11.notify_not_finished", P("C08"), "task", "notification not finished after a recorded hand-off attempt", fmt.Sprintf("%s -> %s by %s", t, u, tr.Tag))
 		}
 		if t.State == 1 && u.State == 1 && u.Attempt == t.Attempt+1 {
 			s.Probes["handoff_retry_recorded"]++
@@ -820,7 +823,7 @@ func (r *ruleState) lockRules(tr *TxRec, req *ReqRec, pre, post *tables.Tables) 
 		} else if clock >= end {
 			s.Probes["lock_expired"]++
 		} else {
-			s.violate("T12.lock_lost", P("C09"), "lock", "lock taken from its holder before the lease ended", fmt.Sprintf("clock %d lease end %d: %s -> %v (by %s)", clock, end, l, m, tr.Name))
+			s.violate("T12.lock_lost", P("C09", "C02"), "lock", "lock taken from its holder before the lease ended", fmt.Sprintf("clock %d lease end %d: %s -> %v (by %s)", clock, end, l, m, tr.Name))
 		}
 		if m == nil {
 			delete(r.lockLease, id)
